@@ -66,6 +66,15 @@ def handle : List String → String
       | some n => "ok " ++ " ".intercalate (render n)
       | none => "err value"
     | _, _, _ => "bad-op"
+  | "rents" :: ctx :: tbl :: toks =>
+    -- the entry list the read-back theorem starts the decoder on (`Decode.rents`), for an expression
+    -- of its fragment set: `op:data,…` last op code first; `-` when the expression is outside the set
+    match readTable tbl with
+    | none => "bad-op"
+    | some t => withMs ctx toks fun _ n =>
+      if Decode.rd .seq n then
+        "ok " ++ ",".intercalate ((Decode.rents (lookup t) n).map fun e => toHex [e.1] ++ ":" ++ toHex e.2)
+      else "ok -"
   | "satflags" :: rest => handleSat true rest
   | "sat" :: rest => handleSat false rest
   | "exec" :: ctx :: sigs :: wit :: lt :: sq :: ver :: toks =>
